@@ -120,7 +120,7 @@ static void register_svd(const Problem& p) {
 }
 
 // run all sequences that start with ops[first] and have total length <= maxlen
-static void case_hist(const Problem& p0, int alg, int first, int maxlen, std::vector<std::vector<int>> subsets, bool reduced_tail) {
+static void case_hist(const Problem& p0, int alg, int first, int maxlen, std::vector<std::vector<int>> subsets, bool reduced_tail, bool warm = false) {
   World w; w.p = p0; w.alg = alg; w.subsets = subsets;
   for (int i = 0; i < w.p.m; i++) w.b.push_back(sx::input("b" + std::to_string(i + 1)));
   register_svd(w.p);
@@ -143,9 +143,14 @@ static void case_hist(const Problem& p0, int alg, int first, int maxlen, std::ve
     if (is_query(last)) {
       Obj o = Obj::make(alg); o.give_input(w);
       int reg = 0; std::string desc; Answer got;
+      if (warm) {      // the history starts on an object that has answered every query once under another regularisation
+        if (subsets.size() >= 2) { reg = (int)subsets.size() - 1; set_reg(*o.s, w, reg); }
+        for (const Op& op : ops) if (is_query(op)) ask(*o.s, op, w.p);
+        desc = "(object queried before" + std::string(reg ? " under min_x(S" + std::to_string(reg) + ")" : "") + ") ";
+      }
       for (size_t k = 0; k < seq.size(); k++) {
         const Op& op = (k == 0) ? ops[seq[k]] : tail[seq[k]];
-        desc += (k ? "; " : "") + op.name;
+        desc += (k ? std::string("; ") : std::string("")) + op.name;
         if (op.kind == 8) { o.s->min_x(); reg = 0; }
         else if (op.kind == 9) { set_reg(*o.s, w, op.i); reg = op.i; }
         else if (op.kind == 10) { o.give_input(w); }
@@ -264,6 +269,11 @@ static void gen_cases(const sx::Options& opt, std::vector<sx::Case>& cases) {
       for (int first = 0; first < nops; first++)
         cases.push_back({"hist/" + p.name + "/" + an[alg] + "/first" + std::to_string(first), std::string("solver object histories: ") + an[alg],
                          [sp, alg, first, maxlen, subs] { sx::note("problem", sp->describe()); case_hist(*sp, alg, first, maxlen, subs, true); }});
+      // the same histories on an object that has been queried before (state changes first: the queries were all asked in the warm-up)
+      std::vector<Op> optab = op_table(p, (int)subs.size(), false);
+      for (int first = 0; first < nops; first++) { if (is_query(optab[first])) continue;
+        cases.push_back({"hist/" + p.name + "/" + an[alg] + "/warm-first" + std::to_string(first), std::string("solver object histories: ") + an[alg],
+                         [sp, alg, first, maxlen, subs] { sx::note("problem", sp->describe()); case_hist(*sp, alg, first, maxlen, subs, true, true); }}); }
     }
     int nadj = p.svd_known ? 12 : 11;
     for (int init : {(int)Adj::envelope, (int)Adj::gso})
